@@ -156,8 +156,19 @@ def case_kernels(ctx, cfg):
         ctx.tally(f"n{n}:{path}:{dt}", len(idx))
         ctx.tally("singular" , int(np.sum(dex == 0)))
 
+        Ain0 = Ain.copy()
+
+        def unchanged(opname):
+            if not np.array_equal(Ain, Ain0):
+                k = int(np.argwhere(np.any(np.asarray(Ain != Ain0).reshape(-1, n, n), axis=(-1, -2)))[0][0])
+                ctx.fail(f"{opname}:operand-modified:n{n}:{path}", opname, {"A": Ain0.reshape(-1, n, n)[k], "layout": lay, "dtype": dt}, "input matrix unchanged", Ain.reshape(-1, n, n)[k])
+                Ain[...] = Ain0
+                return False
+            return True
+
         # det
-        got, e = ctx.call(det, Ain.copy())
+        got, e = ctx.call(det, Ain)
+        unchanged("det")
         ctx.trace()
         if e is not None:
             ctx.fail(f"det:{type(e).__name__}", "det", {"n": n, "fam": fam, "layout": lay, "dtype": dt, "chunk": c}, "value", e)
@@ -168,8 +179,12 @@ def case_kernels(ctx, cfg):
                 k = int(np.ravel_multi_index(tuple(bad), ok.shape)) if ok.shape else 0
                 ctx.fail(f"det:n{n}:{path}", "det", {"A": A[k], "layout": lay, "dtype": dt}, want_d.ravel()[k] if not single else want_d, np.asarray(got).ravel()[k] if not single else got)
         # adjugate
-        got, e = ctx.call(adjugate, Ain.copy())
+        got, e = ctx.call(adjugate, Ain)
         ctx.trace()
+        if unchanged("adjugate") and e is None and not slow:
+            got_again, e_again = ctx.call(adjugate, Ain)
+            if e_again is not None or not np.array_equal(np.asarray(got), np.asarray(got_again)):
+                ctx.fail(f"adjugate:second-call-differs:n{n}:{path}", "adjugate", {"layout": lay, "dtype": dt, "n": n, "fam": fam, "chunk": c}, "same result", "differs")
         if e is not None:
             ctx.fail(f"adjugate:{type(e).__name__}", "adjugate", {"n": n, "fam": fam, "layout": lay, "dtype": dt, "chunk": c}, "value", e)
         else:
@@ -188,8 +203,12 @@ def case_kernels(ctx, cfg):
             d_sel = dex[sel].astype(complex)
             want_inv = adjex[sel].astype(complex) / d_sel[:, None, None]
             want_inv = want_inv[0] if single else want_inv.reshape(lay_t + (n, n))
-            got, e = ctx.call(inv, Bin.copy())
+            Bin0 = Bin.copy()
+            got, e = ctx.call(inv, Bin)
             ctx.trace()
+            if not np.array_equal(Bin, Bin0):
+                ctx.fail(f"inv:operand-modified:n{n}:{path}", "inv", {"layout": lay, "dtype": dt, "n": n, "fam": fam, "chunk": c}, "input matrix unchanged", "modified")
+                Bin = Bin0
             if e is not None:
                 ctx.fail(f"inv:{type(e).__name__}", "inv", {"n": n, "fam": fam, "layout": lay, "dtype": dt, "chunk": c}, "value", e)
             else:
